@@ -1,5 +1,5 @@
 """C12 -- presentation options never change the verdict (exit status and the sets of removed / added / changed interfaces)."""
-import os, itertools
+import os, itertools, re
 import vf, campaign, report
 
 PRES = ["--no-show-locs", "--show-bytes", "--show-bits", "--show-hex", "--show-dec", "--no-linkage-name", "--no-show-relative-offset-changes",
@@ -9,7 +9,8 @@ PRES = ["--no-show-locs", "--show-bytes", "--show-bits", "--show-hex", "--show-d
 def verdict_names(rep):
     out = []
     for sec in ("removed_fns", "added_fns", "changed_fns", "removed_vars", "added_vars", "changed_vars", "removed_fsyms", "added_fsyms", "removed_vsyms", "added_vsyms"):
-        out += ["%s:%s" % (sec, n) for n in rep["names"].get(sec, [])]
+        # an entry without a generated name (a C++ member function) is kept as printed, minus the `{linkage name}` suffix that --no-linkage-name removes by design
+        out += ["%s:%s" % (sec, re.sub(r"\s*\{[^{}]*\}\s*$", "", n).strip()) for n in rep["names"].get(sec, [])]
     return sorted(set(out))
 
 
